@@ -8,8 +8,8 @@ T=$(mktemp -d)
 mkdir -p $T/a $T/b; cp /verif/known_findings.json $T/a/; cp /verif/known_findings.json $T/b/
 rc=0
 for p in C01 C02 C03 C04 C05 C06 C07 C08 C09 C10 C11 C12 C13 C14 C15 C16 C17 C19 C20; do
-  VERIF_DIR=$T/a VERIF_RUNS=$RUNS VERIF_WORKERS=16 $BIN check --property $p --tier quick >/dev/null 2>&1
-  VERIF_DIR=$T/b VERIF_RUNS=$RUNS VERIF_WORKERS=3 $BIN check --property $p --tier quick >/dev/null 2>&1
+  VERIF_MAX_SECS=3000 VERIF_DIR=$T/a VERIF_RUNS=$RUNS VERIF_WORKERS=16 $BIN check --property $p --tier quick >/dev/null 2>&1
+  VERIF_MAX_SECS=3000 VERIF_DIR=$T/b VERIF_RUNS=$RUNS VERIF_WORKERS=3 $BIN check --property $p --tier quick >/dev/null 2>&1
   da=$(jq -r '.coverage.batch_digest + " " + (.coverage.evaluations|tostring)' $T/a/evidence/$p.json)
   db=$(jq -r '.coverage.batch_digest + " " + (.coverage.evaluations|tostring)' $T/b/evidence/$p.json)
   if [ "$da" == "$db" ]; then echo "$p deterministic: $da"; else echo "$p DIVERGES: 16 workers $da / 3 workers $db"; rc=1; fi
